@@ -455,6 +455,8 @@ def run(rep: vlib.Reporter, tier: str, seed: int) -> None:
                     "non-empty tuples")
     for c in (ic[77], sel[0], vc[100], ec[0]):
         rep.sample(c)
+    from harness import srctie      # source-text tie (Props/SrcTie.v): definitions regenerated from the source text = the models
+    found = (not srctie.check(rep)) or found
     if not pr.ok and not found:
         rep.finding("proof-broken", "Props/C18.v no longer checks",
                     {"failed_files": pr.failed_files, "forbidden": pr.forbidden, "log_tail": pr.log[-3000:]}, found_input=False)
@@ -463,6 +465,9 @@ def run(rep: vlib.Reporter, tier: str, seed: int) -> None:
 def replay(path: str) -> int:
     r = json.load(open(path))["replay"]
     print(json.dumps(r, indent=1))
+    if r.get("kind") == "srctie":
+        from harness import srctie
+        srctie.replay(r)
     if r.get("kind") == "select":
         from mloda.core.prepare.resolve_links import ResolveLinks
         classes = make_classes(r["parents"], "s")
